@@ -39,20 +39,20 @@ contract("qubovert._pubo:PUBO._reduce_degree", props=["C01"],
          returns="none", modifies=["D"],
          ensures=["implies(lam is None, %s >= aden(self))" % _F,
                   "implies(cons(final('reductions')), %s == aden(self))" % _F, "wf(D)",
-                  # the ancilla labels the call drew are not labels of the model: every one is >= num_binary_variables
-                  # (and below the final counter)
-                  "vals_in(final('reductions'), self._num_binary_variables, final('ancilla'))"],
+                  # the ancilla labels the call drew are not labels of the model: every one is above the largest
+                  # integer the mapping uses (and below the final counter)
+                  "vals_in(final('reductions'), maxkey(self._reverse_mapping) + 1, final('ancilla'))"],
          quick_instances=[0, 9],
          loops={1: {"invariant": "bden(mapped_self) == aden(visited)"},
                 2: {"invariant": "True"},
                 3: {"invariant": "True"},
                 4: {"invariant": "implies(cons(reductions), %s == bden(visited)) and "
                                  "implies(lam is None, %s >= bden(visited)) and wf(D) and " % (_F, _F) +
-                                 "vals_in(reductions, self._num_binary_variables, ancilla) and ancilla >= self._num_binary_variables",
+                                 "vals_in(reductions, maxkey(self._reverse_mapping) + 1, ancilla) and ancilla >= maxkey(self._reverse_mapping) + 1",
                     "vars": {"reductions": "inttable"}},
                 "w1": {"invariant": "implies(cons(reductions), %s == bden(visited4) and bmono(key) == bmono(pre(key))) and "
                                     "implies(lam is None, %s + v * bmono(key) >= bden(visited4) + v * bmono(pre(key))) and wf(D) and " % (_F, _F) +
-                                    "vals_in(reductions, self._num_binary_variables, ancilla) and ancilla >= self._num_binary_variables"},
+                                    "vals_in(reductions, maxkey(self._reverse_mapping) + 1, ancilla) and ancilla >= maxkey(self._reverse_mapping) + 1"},
                 5: {"invariant": "not previously_used and not in_pairs and " + _BP.format(vis="visited"),
                     "vars": {"best_pair": "bestpair2"}},
                 6: {"invariant": "not previously_used and not in_pairs and inkey(x, key) and " +
